@@ -218,13 +218,21 @@ int main(int argc, char** argv) {
         // larger samples: one exact event (n <= 1000 keeps n(n^2-1) and 6*sum d^2 inside 31 bits for TLC) and
         // residuals against O(n^2) long-double definitions up to the full length
         for (int rep = 0; rep < 3; ++rep) {
-            const int m = rep == 0 ? (int)rng.range(300, 1000) : (int)rng.range(2, std::max(2, maxlen));
+            // rep 2: long and strictly decreasing, the relation with the largest sum of squared rank differences
+            // (n^3/3 passes 2^31 above n = 1861: integer accumulators in a closed-form rho)
+            const bool longdec = rep == 2 && maxlen >= 2000;
+            const int m = rep == 0 ? (int)rng.range(300, 1000) : longdec ? (int)rng.range(1900, 3000) : (int)rng.range(2, std::max(2, maxlen));
             std::vector<long> px(m), py(m);
             std::iota(px.begin(), px.end(), 1);
             std::iota(py.begin(), py.end(), 1);
             for (int i = m - 1; i > 0; --i) {
                 std::swap(px[i], px[rng.range(0, i)]);
                 std::swap(py[i], py[rng.range(0, i)]);
+            }
+            if (longdec) {
+                for (int i = 0; i < m; ++i) {
+                    py[i] = m + 1 - px[i];
+                }
             }
             if (rep == 0) {
                 // Kendall's pair count is O(n^2) in TLC as well; only Spearman is checked exactly here
